@@ -913,6 +913,21 @@ fn gen_keys(rng: &mut Rng, n: usize, default: &str, always: bool) -> Vec<String>
             ks[i] = format!("{}_{}", rand_string(rng), i);
         }
     }
+    // near-collisions: two keys / names that differ only in ASCII case, or only by surrounding blanks (they are DIFFERENT keys)
+    if n >= 2 && rng.chance(1, 3) {
+        let a = rng.below(n as u64) as usize;
+        let b = rng.below(n as u64) as usize;
+        if a != b && !RAW_KEYWORDS.contains(&ks[a].as_str()) && !RAW_KEYWORDS.contains(&ks[b].as_str()) {
+            if !ks[a].chars().any(|c| c.is_ascii_alphabetic()) { ks[a] = format!("{}Id", ks[a]); }
+            let base = ks[a].clone();
+            let other = match rng.below(3) {
+                0 => base.to_ascii_uppercase(),
+                1 => base.to_ascii_lowercase(),
+                _ => format!(" {}", base),
+            };
+            if other != base && !ks.contains(&other) { ks[b] = other; }
+        }
+    }
     if collide {
         let a = rng.below(n as u64) as usize;
         let b = rng.below(n as u64) as usize;
